@@ -123,7 +123,7 @@ Qed.
 (* ---- the exact list of failures, in order, on symbolic streams ---- *)
 Definition fail_of (o : sout) : list failure :=
   match o with
-  | SErr => [FWait]
+  | SErr _ => [FWait]
   | SEintr => []
   | SEv (EvExit k) => if k =? 0 then [] else [FExit]
   | SEv (EvKill s _) => [FKilled s]
